@@ -751,6 +751,7 @@ func main() {
 	}
 
 	duplexFacts(e, p)
+	plumbingFacts(e, p)
 
 	if len(e.errs) > 0 {
 		for _, m := range e.errs {
